@@ -33,6 +33,8 @@ def outputs(case, front):
     ex = SH.execute(c)
     res = ex['res']
     out = res.out if front in FE.STREAM else b''.join(d for d, _ in res.datagrams)
+    if front not in FE.STREAM and case.get('delivery', {}).get('peers'):
+        out = b''.join(d + repr(a).encode() for d, a in res.datagrams)       # who is answered is part of the behaviour
     per = list(res.per_read)
     dump = SM.norm_dump(SM.dump(ex['blocks'], case['layout']['zero_mode']))
     return {'out': out, 'per_read': per, 'dump': dump, 'escaped': [type(e).__name__ for e in res.escaped], 'closed': res.closed, 'ex': ex}
@@ -214,6 +216,8 @@ def run(run):
     for framing in ('tcp', 'ascii', 'rtu', 'binary'):
         for i in range(n):
             case = gen_case(r, framing, uniq, per_read=1 if i % 2 else 3)
+            if i % 4 == 3:
+                SH.add_delivery(r, case)           # asyncio: several reads queued before the handler task runs
             ok = check_differential(run, case, STREAM_FRONTS)
             run.case(h64(('diff', repr(case))), True,
                      sample={'kind': 'differential', 'framing': framing, 'fronts': STREAM_FRONTS, 'single': case['layout']['single'], 'hosted': sorted(case['layout']['units']),
@@ -222,6 +226,8 @@ def run(run):
     for i in range(n):
         case = gen_case(r, 'tcp', uniq, per_read=1 if i % 3 else 2)
         case['flags']['broadcast_enable'] = bool(i % 4 == 0)
+        if i % 2:
+            SH.add_delivery(r, case)               # several senders; asyncio: datagrams queued before the handler task runs
         ok = check_differential(run, case, DGRAM_FRONTS)
         run.case(h64(('dgram', repr(case))), True,
                  sample={'kind': 'differential', 'framing': 'tcp', 'fronts': DGRAM_FRONTS, 'reads': [[(u, m['fc']) for u, t, m in rd] for rd in case['reads']][:5],
